@@ -69,7 +69,7 @@ func (s *stats) seen(set, v string) {
 }
 
 func paramsFor(tier string, idx int) mx.GenParams {
-	p := mx.GenParams{MinBatches: 5, MaxBatches: 24, MaxBatch: 300, Branch: 25}
+	p := mx.GenParams{MinBatches: 5, MaxBatches: 24, MaxBatch: 300, Branch: 25, Tickets: true}
 	if tier == "thorough" {
 		p.MaxBatches = 60
 	}
@@ -114,6 +114,7 @@ type execer struct {
 	model   []*mx.Version
 	roots   [][]byte
 	keys    []string // all keys ever mentioned + probes
+	capKeys int      // quick tier: at most this many keys per full point-read pass (0 = all)
 	staleOK int64    // reads at an old root whose answer differs from the newest version's answer
 }
 
@@ -140,8 +141,14 @@ func (e *execer) pickKeys(ver *mx.Version, plan int) []string {
 		}
 		return ks
 	}
+	if plan == planAll && e.capKeys > 0 && len(e.keys) > e.capKeys {
+		return sample(e.capKeys) // the structural walk still compares every persisted leaf of the version with the model
+	}
 	switch plan {
 	case planPresent:
+		if e.capKeys > 0 && len(ver.Keys()) > e.capKeys {
+			return sample(e.capKeys)
+		}
 		return append(append([]string{}, ver.Keys()...), sample(48)...)
 	case planSample:
 		return sample(48)
@@ -756,6 +763,9 @@ func childMain(in []byte) (any, error) {
 			c := &lib.Ctx{Prop: "C01", Seed: ci.Seed}
 			e := &execer{h: h, cfg: cfg, dir: filepath.Join(tmp, fmt.Sprintf("h%d-%d", idx, ci2)), st: st,
 				rng: c.CaseRng("check", idx*16+ci2), full: len(h.Batches) <= 8}
+			if ci.Tier != "thorough" {
+				e.capKeys = 400
+			}
 			rotBefore := st.cnt["rotations_left"] + st.cnt["rotations_right"]
 			t0 := time.Now()
 			f := e.run()
@@ -820,7 +830,7 @@ func run(c *lib.Ctx) {
 	c.Assume("goleveldb and the harness' map model are trusted", "Store.Get cannot distinguish an absent key from an empty value: it is compared as bytes, presence is compared through Tree.Get",
 		"structural invariants (size, AVL balance, split key, node hash, Tree.Get index) are monitored as part of the DESIGN's oracle and reported under shape struct:*",
 		"removal batches use db.DelKVPair (the store's Del is unsupported); they are an extra operation stream of the same model")
-	n := c.N(60, 1500)
+	n := c.N(48, 1500)
 	var idxs []int
 	for i := 0; i < n; i++ {
 		if c.Skip(i) {
